@@ -26,7 +26,7 @@ func init() {
 		},
 		Run:            c09Run,
 		Floor:          func(tier string) int { return 5000 },
-		Rule:           "(an axes attribute that is present and empty counts as not given) ArgMax (ranks 1..4, every axis in both spellings and the default, keepdims 0/1/absent, forced ties at first/last positions, NaNs only judged for 'index in range'), ReduceMax/ReduceMin (every axes subset in both spellings, absent axes with and without keepdims, no attributes at all, all accepted element types), Softmax/LogSoftmax (every axis, default axis, magnitudes from 1e-30 to half the float maximum incl. rows that overflow exp and all-large-negative rows); invalid axes must be refused. ArgMax/Reduce exact; softmax family within the float64 max-subtracted reference tolerance plus the structural assertions (non-negative, slice sums within K*8u of 1, exp(LogSoftmax) sums to 1, finite for finite inputs). All valid requests MUST_EQUAL. Non-trivial = rank >= 2 or ties or large magnitudes or invalid; distinct = (operator, dtype, shape, attributes, value hash)." + ruleShared + ruleReused,
+		Rule:           "(ArgMax inputs also hold +Inf and the largest finite values) (an axes attribute that is present and empty counts as not given) ArgMax (ranks 1..4, every axis in both spellings and the default, keepdims 0/1/absent, forced ties at first/last positions, NaNs only judged for 'index in range'), ReduceMax/ReduceMin (every axes subset in both spellings, absent axes with and without keepdims, no attributes at all, all accepted element types), Softmax/LogSoftmax (every axis, default axis, magnitudes from 1e-30 to half the float maximum incl. rows that overflow exp and all-large-negative rows); invalid axes must be refused. ArgMax/Reduce exact; softmax family within the float64 max-subtracted reference tolerance plus the structural assertions (non-negative, slice sums within K*8u of 1, exp(LogSoftmax) sums to 1, finite for finite inputs). All valid requests MUST_EQUAL. Non-trivial = rank >= 2 or ties or large magnitudes or invalid; distinct = (operator, dtype, shape, attributes, value hash)." + ruleShared + ruleReused,
 		RaceInThorough: true,
 		Technique:      "runtime monitoring: differential execution against the reference reductions (exact) and a float64 max-subtracted softmax with a sound tolerance, plus online structural assertions",
 		Assumptions:    []string{"NaN ordering in ArgMax is unspecified: with NaNs only the index range is asserted", "softmax inputs are kept within half the float range so that differences are representable"},
